@@ -49,6 +49,7 @@ type Engine struct {
 	errConsts   map[*ssa.Global]string
 	modulePath  string
 	loopCache   map[*ssa.Function]*loopInfo
+	typedOnce map[string]bool
 	retCovers int
 	pdomCache map[*ssa.Function]*pdomInfo
 	usedGhostFuncs map[string]bool
